@@ -1,6 +1,6 @@
 (* C08 — property theorems (statements only; proofs live in Proofs*.v).  See notes/C08.md for the status of each. *)
 From Coq Require Import List ZArith QArith Qabs Bool.
-Require Import QV.C08.Model QV.C08.Spec QV.C08.Wf QV.C08.Proofs QV.C08.ProofsVec QV.C08.ProofsRev QV.C08.ProofsConst QV.C08.ProofsTotal QV.C08.ProofsProper QV.C08.ProofsCtor QV.C08.Hist QV.C08.ProofsHist QV.C08.ProofsTrafo QV.C08.ProofsConstT QV.C08.ProofsTotalT.
+Require Import QV.C08.Model QV.C08.Spec QV.C08.Wf QV.C08.Proofs QV.C08.ProofsVec QV.C08.ProofsRev QV.C08.ProofsConst QV.C08.ProofsTotal QV.C08.ProofsProper QV.C08.ProofsCtor QV.C08.Hist QV.C08.ProofsHist QV.C08.ProofsTrafo QV.C08.ProofsConstT QV.C08.ProofsTotalT QV.C08.ProofsTable QV.C08.ProofsPar.
 Import ListNotations.
 Open Scope Q_scope.
 
@@ -155,6 +155,27 @@ Theorem C08_from_sequence_plain : forall l, (2 <= length l)%nat ->
   from_sequence l = mk_seq l.
 Proof. exact from_sequence_plain. Qed.
 Print Assumptions C08_from_sequence_plain.
+(* from_table: what _validate_input reports as constant IS constant on the whole closed interval (the repaired defect
+   01efa2c violated exactly this), so the ConstantWaveform samples like the plain table; de-duplication: not proved *)
+Theorem C08_table_const_detection : forall tab d v, validate_input tab = OK (inl (d, v)) ->
+  table_valid tab = true /\ d = last_t tab /\
+  forall t, 0 <= t -> t <= d -> exists v', table_at tab t None = Some v' /\ v' == v.
+Proof. exact validate_const_sound. Qed.
+Print Assumptions C08_table_const_detection.
+Theorem C08_from_table_const : forall c tab d v, validate_input tab = OK (inl (d, v)) ->
+  from_table c tab = OK (mk_const d v c) /\
+  forall t, 0 <= t -> t <= last_t tab -> oQeq (sample (mk_const d v c) c t) (sample (WTable c tab) c t).
+Proof. exact from_table_const_sound. Qed.
+Print Assumptions C08_from_table_const.
+
+(* from_parallel (flatten nested multi-channel waveforms + sort) samples like MultiChannelWaveform of the same parts *)
+Theorem C08_from_parallel : forall l w w', (2 <= length l)%nat ->
+  from_parallel l = OK w' -> mk_multi l = OK w ->
+  Forall (fun x => match is_multi x with Some s => overlap_free s [] = true | None => True end) l ->
+  forall c t, sample w' c t = sample w c t.
+Proof. exact from_parallel_sound. Qed.
+Print Assumptions C08_from_parallel.
+
 Definition C08_constructors_statement : Prop :=
   forall r w wp, build r = OK w -> build_plain r = OK wp -> forall c t,
   inb c (channels wp) = true -> 0 <= t -> t < duration wp -> oQeq (sample w c t) (sample wp c t).
